@@ -1427,7 +1427,7 @@ where
                                         stats.cache_timeouts += 1;
                                     }
                                     MissType::CacheReadError => {
-                                        stats.cache_errors.increment(&kind, &lang);
+                                        stats.cache_read_errors += 1;
                                     }
                                 }
                                 stats.compilations += 1;
